@@ -143,7 +143,7 @@ class MongoDriver(BaseDriver):
 
     @staticmethod
     def _id_to_db(id_: str) -> Union[str, bson.ObjectId]:
-        if isinstance(id_, str) and _OBJECT_ID_RE.match(id_):
+        if isinstance(id_, str) and _OBJECT_ID_RE.fullmatch(id_):
             return bson.ObjectId(id_)
 
         else:
